@@ -51,7 +51,7 @@ func (sm *stateMachine) Connect(session *session) {
 	}
 
 	if session.ResetOnLogon {
-		if err := session.store.Reset(); err != nil {
+		if err := session.dropAndReset(); err != nil {
 			session.logError(err)
 			return
 		}
